@@ -117,7 +117,7 @@ var vhVerifyResult bool
 func vhInTotoVerify(layoutEnv intoto.Metadata, layoutKeys map[string]intoto.Key, linkDir string, stepName string, params map[string]string, pems [][]byte, lineNorm bool) (intoto.Metadata, error) {
 	vhEv = append(vhEv, "verify")
 	m, _ := layoutEnv.(*vhCmdMeta)
-	ok := m != nil && m.tag == "layout" && linkDir == "LINKDIR" && stepName == "" && len(params) == 0 && lineNorm
+	ok := m != nil && m.tag == "layout" && linkDir == "LINKDIR" && stepName == "" && len(params) == 0 && lineNorm == lineNormalization
 	// exactly the loaded keys, keyed by their key ids
 	ok = ok && len(layoutKeys) == len(vhExpectKeyIDs)
 	for _, id := range vhExpectKeyIDs {
@@ -262,7 +262,7 @@ func vh_C20_verify_twin(a []int) { vhC20Verify(a, true) }
 
 func vhC20Verify(a []int, twin bool) {
 	vhReset()
-	layoutPath, linkDir, lineNormalization = "the.layout", "LINKDIR", true
+	layoutPath, linkDir, lineNormalization = "the.layout", "LINKDIR", vBool("line-normalization")
 	layoutOK := vBool("layout.loads")
 	if layoutOK {
 		vhLoadable["the.layout"] = &vhCmdMeta{tag: "layout", events: &vhEv}
@@ -353,7 +353,8 @@ func vh_C20_sign(a []int) {
 // ---- run ----------------------------------------------------------------------------------
 
 func vhSetCommonFlags() {
-	exclude, lStripPaths, lineNormalization, followSymlinkDirs, useDSSE = []string{"EXCL"}, []string{"STRIP"}, true, true, vBool("use-dsse")
+	// every switch is arbitrary, so that two of them passed in each other's place are told apart
+	exclude, lStripPaths, lineNormalization, followSymlinkDirs, useDSSE = []string{"EXCL"}, []string{"STRIP"}, vBool("line-normalization"), vBool("follow-symlink-dirs"), vBool("use-dsse")
 	outDir = "OUT"
 	key = intoto.Key{KeyID: vPick("keyid", "0123456789abcdef", "fedcba9876543210ffff"), KeyVal: intoto.KeyVal{Certificate: "CERT"}}
 }
@@ -376,7 +377,7 @@ func vh_C20_run(a []int) {
 	c := vhRunCall
 	vAssert("C20.run-passes-its-flags-to-the-library", c != nil && c.name == stepName && c.runDir == "RUN" && c.mat == "M1,M2" && c.prod == "P1" &&
 		c.cmd == strings.Join(args, " ") && c.keyID == key.KeyID && c.cert == "CERT" && c.alg == "sha256" && c.excl == "EXCL" && c.strip == "STRIP" &&
-		c.lineNorm && c.follow && c.dsse == useDSSE)
+		c.lineNorm == lineNormalization && c.follow == followSymlinkDirs && c.dsse == useDSSE)
 	if vhAPIFails {
 		vAssert("C20.run-library-error-is-reported", err != nil && !vhHasEv("dump:"))
 	} else {
@@ -403,7 +404,7 @@ func vh_C20_record(a []int) {
 		err := recordStart(nil, nil)
 		vObserve("recordstart", err == nil, len(vhEv))
 		c := vhRunCall
-		vAssert("C20.record-start-passes-its-flags", c != nil && c.name == recordStepName && c.mat == "M" && c.keyID == key.KeyID && c.alg == "sha256" && c.excl == "EXCL" && c.strip == "STRIP" && c.lineNorm && c.follow && c.dsse == useDSSE)
+		vAssert("C20.record-start-passes-its-flags", c != nil && c.name == recordStepName && c.mat == "M" && c.keyID == key.KeyID && c.alg == "sha256" && c.excl == "EXCL" && c.strip == "STRIP" && c.lineNorm == lineNormalization && c.follow == followSymlinkDirs && c.dsse == useDSSE)
 		if vhAPIFails {
 			vAssert("C20.record-start-error-is-reported", err != nil && !vhHasEv("dump:"))
 		} else {
@@ -425,7 +426,8 @@ func vh_C20_record(a []int) {
 		vAssert("C20.record-stop-error-is-reported", err != nil && !vhHasEv("dump:") && !vhHasEv("remove:"))
 	} else {
 		c := vhRunCall
-		vAssert("C20.record-stop-passes-its-flags", vhHasEv("recordstop:prelim") && c != nil && c.prod == "P" && c.keyID == key.KeyID && c.alg == "sha256" && c.dsse == useDSSE)
+		vAssert("C20.record-stop-passes-its-flags", vhHasEv("recordstop:prelim") && c != nil && c.prod == "P" && c.keyID == key.KeyID && c.alg == "sha256" &&
+			c.excl == "EXCL" && c.strip == "STRIP" && c.lineNorm == lineNormalization && c.follow == followSymlinkDirs && c.dsse == useDSSE)
 		vAssert("C20.record-stop-writes-the-final-link-then-removes-the-preliminary-one", vhHasEv("dump:finallink:"+final))
 		if err == nil {
 			vAssert("C20.record-stop-order", len(vhEv) == 4 && vhEv[2] == "dump:finallink:"+final && vhEv[3] == "remove:"+prelim)
